@@ -175,6 +175,57 @@ def scenario_for(alpha_kind, shape, scale_axis=None, bounds_po2=False):
   return scenario
 
 
+def linear_scenario(shape, scale_axis=None):
+  """quantized_linear(alpha='auto', symmetric, signed): output = quantization_scale * integer code with |code| <= 2^n - 1,
+  quantization_scale = max(2*max_G|x| / (2*(2^n - 1)), eps) > 0 over the expected group; group-maximal elements unchanged
+  when the scale is above the epsilon floor."""
+  def scenario(ip):
+    s = Scen()
+    ip.aggs = []
+    bits, integer = z3.Int("bits"), z3.Int("integer")
+    s.vars["bits"], s.vars["integer"] = bits, integer
+    ip.assume(z3.And(bits >= 2, integer >= 0))
+    n = bits - 1
+    kw = {"alpha": "auto"}
+    if scale_axis is not None:
+      kw["scale_axis"] = scale_axis
+    q = ip.call(Q.qcls(ip, "quantized_linear"), [SNum(bits), SNum(integer), 1, 1], kw)
+    x = Q.tensor("x", shape=shape)
+    xe = x.e
+    s.vars["x"] = xe
+    s.replay = {"class": "quantized_linear", "kwargs": {"alpha": "auto", "scale_axis": scale_axis}, "shape": list(shape),
+                "bounds_po2": False, "frozen": False}
+    r = Q.call(ip, q, x)
+    s.claim("no_raise", r[0] == "return")
+    if r[0] != "return":
+      s.info["raised"] = str(r[1])
+      return s
+    ret = Q.value(r)
+    qs = Q.num_value(ip.getattr(q, "quantization_scale"))
+    s.vars["scale"] = qs
+    top = z3.ToReal(I.IPOW2(n) - 1)
+    s.hints.extend([n, -n, integer])
+    s.claim("scale_pos", qs > 0)
+    rank = len(shape)
+    # rank 1: quantized_linear reduces over no axis at all (every element is its own channel)
+    axes = c04.expected_axes(rank, scale_axis) if rank > 1 else ()
+    reds = [k for kind, _, _, k in ip.aggs if kind in ("K.mean", "K.max")]
+    s.claim("scale_group", bool(reds) and all(tuple(k[2] or ()) == tuple(axes) for k in reds))
+    gmax = [g for kind, e, g, k in ip.aggs if kind == "K.max"]
+    if not gmax:
+      s.claim("scale_formula", False)
+      return s
+    m = gmax[0]
+    ax = z3.If(xe >= 0, xe, -xe)
+    raw = (m * 2) / (2 * top)
+    s.claim("scale_formula", qs == z3.If(raw >= EPS, raw, EPS))
+    # the emitted value lies within the declared code range times the scale (integrality of ret / scale is not claimed here)
+    s.claim("code_range", z3.And(ret <= top * qs, ret >= -top * qs))
+    s.claim("max_to_top", z3.Implies(z3.And(raw >= EPS, ax == m), ret == xe))
+    return s
+  return scenario
+
+
 def bounds(vars_):
   cs = []
   for k, v in vars_.items():
@@ -199,6 +250,12 @@ def cases(tier):
   for bk in ("both", "min", "max"):
     out.append(Case(PROP, T, "alpha-auto_po2_bounded-%s_rank2" % bk, scenario_for("auto_po2", (3, 4), bounds_po2=bk), bounds=bounds,
                     replay_kind="c05", assumptions=ASSUME, timeout_ms=20000))
+  TL = Q.QF + "quantized_linear.__call__"
+  for shape in ((5,), (3, 4), (2, 2, 3, 4)):
+    out.append(Case(PROP, TL, "alpha-auto_rank%d" % len(shape), linear_scenario(shape), bounds=bounds, replay_kind=None,
+                    assumptions=ASSUME, timeout_ms=20000))
+  out.append(Case(PROP, TL, "alpha-auto_scale_axis0_rank2", linear_scenario((3, 4), scale_axis=0), bounds=bounds,
+                  replay_kind=None, assumptions=ASSUME, timeout_ms=20000))
   out.append(Case(PROP, T, "frozen_post_training_scale_rank2", scenario_for("frozen", (3, 4)), bounds=bounds,
                   replay_kind="c05", assumptions=ASSUME, timeout_ms=20000))
   return out
